@@ -143,7 +143,11 @@ func c10Run(c c10Case) Verdict {
 		}
 		out, st := w.Exchange([]byte(line + "\r\n"))
 		prs, perr := harness.ParseReplies(out)
-		if perr != nil || len(prs) != 1 || (st != harness.QIdle && st != harness.QClosed) {
+		wantN := 1
+		if lmtp && nrcpt > 1 && strings.HasPrefix(p, "BDAT") {
+			wantN = nrcpt // LMTP: one final reply per accepted recipient
+		}
+		if perr != nil || len(prs) != wantN || (st != harness.QIdle && st != harness.QClosed) {
 			return fail(failf("probe-reply", "inside TLS, %q: %v %v %s", line, codes(prs), perr, st))
 		}
 		rp := prs[0]
